@@ -104,6 +104,23 @@ func staticSetup() *staticEnv {
 		r.StaticFiles("/assets", other, "txt")
 		r.StaticFiles("/assets", e.root, "css")
 	})
+	// a root that does not exist yet when the routes are registered (unpacked by a later deploy step), with secrets beside it
+	late := filepath.Join(tmp, "pub", "late")
+	mk("dir-late", func(r *rux.Router) { r.StaticDir("/assets", late) })
+	mk("css-late", func(r *rux.Router) { r.StaticFiles("/assets", late, "css") })
+	os.MkdirAll(filepath.Join(late, "sub"), 0o755)
+	os.MkdirAll(filepath.Join(late, "lib.js"), 0o755)
+	for rel, m := range e.markers {
+		write("pub/late/"+rel, m)
+	}
+	// the application has a global path variable named like the variable the static handlers use internally ("file", for
+	// its own /download/{file} routes): the extension list of StaticFiles is still what decides
+	rux.SetGlobalVar("file", `[\w.-]+`)
+	mk("css-globalfile", func(r *rux.Router) {
+		r.GET("/download/{file}", nopHandler)
+		r.StaticFiles("/assets", e.root, "css")
+	})
+	delete(rux.GetGlobalVars(), "file")
 	mk("fs", func(r *rux.Router) { r.StaticFS("/assets", http.Dir(e.root)) })
 	mk("css", func(r *rux.Router) { r.StaticFiles("/assets", e.root, "css") })
 	mk("cssjs", func(r *rux.Router) { r.StaticFiles("/assets", e.root, "css|js") })
@@ -116,7 +133,7 @@ type naiveFS struct{ root string }
 func (n naiveFS) Open(name string) (http.File, error) { return os.Open(filepath.Join(n.root, name)) }
 
 // staticTwin: handlers that must answer exactly like another one (same files, configured in another way)
-var staticTwin = map[string]string{"dir-relative": "dir", "dir-dotdot": "dir", "css-relative": "css", "css-two-roots": "css"}
+var staticTwin = map[string]string{"dir-relative": "dir", "dir-dotdot": "dir", "css-relative": "css", "css-two-roots": "css", "dir-late": "dir", "css-late": "css", "css-globalfile": "css"}
 
 func staticReplay(s *Summary, raw json.RawMessage) {
 	var c staticCase
@@ -192,7 +209,7 @@ func staticReplay(s *Summary, raw json.RawMessage) {
 			}
 			if vi != 0 {
 				// precision is only judged on the request as the model describes it
-				if (name == "css" || name == "cssjs" || name == "css-relative") && served != "" {
+				if (name == "css" || name == "cssjs" || name == "css-relative" || name == "css-late" || name == "css-globalfile") && served != "" {
 					ok := strings.HasSuffix(served, ".css") || (name == "cssjs" && strings.HasSuffix(served, ".js"))
 					if !ok {
 						s.mismatch(desc("extension", "served "+served+" which does not have an allowed extension"), c)
@@ -204,7 +221,7 @@ func staticReplay(s *Summary, raw json.RawMessage) {
 			if name == "css" || name == "cssjs" {
 				model = c.Files[name]
 			}
-			if name == "css-relative" {
+			if name == "css-relative" || name == "css-late" || name == "css-globalfile" {
 				model = c.Files["css"]
 			}
 			if name == "css-two-roots" {
@@ -220,7 +237,7 @@ func staticReplay(s *Summary, raw json.RawMessage) {
 			default:
 				// a directory may be listed or redirected, index.html may be served for it; otherwise no file content
 				idx := strings.TrimPrefix(strings.Join(model.Path, "/")+"/index.html", "/")
-				if served != "" && !(model.Kind == "dir" && served == idx && name != "css" && name != "cssjs" && name != "css-relative") {
+				if served != "" && !(model.Kind == "dir" && served == idx && name != "css" && name != "cssjs" && name != "css-relative" && name != "css-late" && name != "css-globalfile") {
 					s.mismatch(desc("precision", fmt.Sprintf("answered %d with the content of %s, the model serves %s", w.Code, served, model.Kind)), c)
 				}
 			}
